@@ -24,7 +24,12 @@ func TestStopAndReopen(t *testing.T) {
 		h := &history{tr: tr, cache: rapid.SampledFrom([]string{"pruning", "pruning", "pruning", "archive"}).Draw(t, "cache")}
 		h.batches = gen.DrawHistory(t, tr, 6, true)
 		var sb strings.Builder
-		for _, b := range h.batches {
+		for i, b := range h.batches {
+			r := i > 0 && rapid.IntRange(0, 3).Draw(t, "restartbefore") == 0
+			h.restart = append(h.restart, r)
+			if r {
+				sb.WriteString("RESTART ")
+			}
 			fmt.Fprintf(&sb, "#%d+%d ", b[0].Index, len(b))
 		}
 		h.name = fmt.Sprintf("%s/%s/%s| %s", nc.Name, h.cache, strings.Join(tr.Describe(), ";"), sb.String())
